@@ -1045,6 +1045,13 @@ class DataSourceMetadataSource(MetadataSource):
         self.data_source.output(
             metadata_key, io.BytesIO(bytes() if stored_with_data else value)
         )
+        # The value lives either here or beside the data object. Whatever was written for this key
+        # in the other form is superseded: remove it so that it is not read back
+        superseded_key = DataSourceMetadataSource._get_metadata_key(
+            fn_with_arg_hash, key, not stored_with_data
+        )
+        if self.data_source.exists_nonversioned(superseded_key):
+            self.data_source.delete_all_versions(superseded_key, False)
 
     def forget_call(self, fn_with_arg_hash: FunctionReferenceWithArgHash):
         call_path_prefix = DataSourceMetadataSource._get_path(
